@@ -5,6 +5,17 @@
 #include <sparse_matrix.h>
 #include <sys/resource.h>
 #include "wire.h"
+#include <new>
+
+// Every array the library allocates is filled with 0xFF bytes (a NaN pattern): a result cell that no routine
+// wrote, or a read of uninitialised memory that reaches the output, is then visible (exact() reports it).
+// OpenBLAS reports illegal parameters through xerbla_ on stdout, which would corrupt the result stream: the harness
+// provides its own (counting) definition; the routine still returns without computing, which is what is observed.
+static long xerbla_calls=0;
+extern "C" int xerbla_(char*,int*,int) { ++xerbla_calls; return 0; }
+void* operator new[](size_t n) { void* p=malloc(n?n:1); if (!p) throw std::bad_alloc(); memset(p,0xFF,n); return p; }
+void operator delete[](void* p) noexcept { free(p); }
+void operator delete[](void* p,size_t) noexcept { free(p); }
 
 using namespace OpenMEEG;
 typedef unsigned U;
@@ -104,12 +115,135 @@ static Wire c13(Reader& r) {
     case 64:{ SymMatrix A=getSym(r); ll x=r.z(); return pure1(Vector(0),[&]{ A*=(double)x; return outSym(A); }); }
     case 65:{ Matrix M=getDense(r); return pure1(M,[&]{ return outSym(SymMatrix(M)); }); }
     case 66:{ SymMatrix S=getSym(r); U a=getU(r),b=getU(r),c=getU(r),d=getU(r); return pure1(S,[&]{ return outDense(S(a,b,c,d)); }); }
+    case 70:{ // copy semantics: A; B=A (copy constructor, shares the buffer); C(A,DEEP_COPY); write cell k of who; views of A,B,C
+        Vector d=getVec(r); size_t who=r.n(), k=r.n(); ll x=r.z(); size_t kind=d.size()%3; Wire o{ST_OK,(ll)d.size()};
+        auto run=[&](auto& A,auto& B,auto& C) { double* t=(who==0)?A.data():(who==1)?C.data():B.data(); if (k<d.size()) t[k]=(double)x;
+            for (auto* p:{A.data(),B.data(),C.data()}) for (size_t q=0;q<d.size();++q) o.push_back(exact(p[q])); };
+        if (kind==0 || d.size()==0) { Vector A(d,DEEP_COPY); Vector B(A); Vector C(A,DEEP_COPY); run(A,B,C); }
+        else if (kind==1) { Matrix A(d,(unsigned)d.size(),1); Matrix B(A); Matrix C(A,DEEP_COPY); run(A,B,C); }
+        else { Matrix A0(d,1,(unsigned)d.size()); Matrix A(A0,DEEP_COPY); Matrix B=A; Matrix C(A,DEEP_COPY); run(A,B,C); }
+        return o; }
     }
     return Wire{-1};
 }
 
+
+// ---------------------------------------------------------------------------------------------------------
+// LAPACK-backed methods: MEASURED against their defining equations (not proved).  Products are computed here
+// with naive loops on the returned doubles; the condition number comes from an independent LAPACKE_dgesvd.
+#include <matop.h>
+typedef std::vector<double> DV;
+struct DM { size_t m,n; DV a; DM(size_t m_=0,size_t n_=0): m(m_),n(n_),a(m_*n_,0.0) {} double& operator()(size_t i,size_t j){return a[i+m*j];} double operator()(size_t i,size_t j) const {return a[i+m*j];} };
+static DM mul(const DM& A,const DM& B) { DM C(A.m,B.n); for (size_t j=0;j<B.n;++j) for (size_t k=0;k<A.n;++k) for (size_t i=0;i<A.m;++i) C(i,j)+=A(i,k)*B(k,j); return C; }
+static DM tr(const DM& A) { DM C(A.n,A.m); for (size_t i=0;i<A.m;++i) for (size_t j=0;j<A.n;++j) C(j,i)=A(i,j); return C; }
+static DM sub(const DM& A,const DM& B) { DM C(A.m,A.n); for (size_t k=0;k<C.a.size();++k) C.a[k]=A.a[k]-B.a[k]; return C; }
+static DM eye(size_t n) { DM C(n,n); for (size_t i=0;i<n;++i) C(i,i)=1; return C; }
+static double nrm(const DM& A) { double s=0; for (double x:A.a) { if (!(x==x)) return INFINITY; s+=x*x; } return std::sqrt(s); }
+static DM ofM(const Matrix& M) { DM C(M.nlin(),M.ncol()); for (size_t k=0;k<C.a.size();++k) C.a[k]=M.data()[k]; return C; }
+static DM ofS(const SymMatrix& S) { DM C(S.nlin(),S.nlin()); for (unsigned i=0;i<S.nlin();++i) for (unsigned j=0;j<S.nlin();++j) C(i,j)=S(i,j); return C; }
+static Matrix toM(const DM& A) { Matrix M(A.m,A.n); for (size_t k=0;k<A.a.size();++k) M.data()[k]=A.a[k]; return M; }
+static SymMatrix toS(const DM& A) { SymMatrix S((unsigned)A.m); for (unsigned i=0;i<A.m;++i) for (unsigned j=i;j<A.m;++j) S(i,j)=A(i,j); return S; }
+struct Lcg { unsigned long long s; Lcg(unsigned long long s_): s(s_*6364136223846793005ULL+1442695040888963407ULL) {} int next(int lo,int hi){ s=s*6364136223846793005ULL+1442695040888963407ULL; return lo+(int)((s>>33)%(unsigned long long)(hi-lo+1)); } };
+static DM randint(Lcg& g,size_t m,size_t n,int a=3) { DM X(m,n); for (double& x:X.a) x=g.next(-a,a); return X; }
+// singular values by an independent routine
+static DV svals(const DM& A) { DM c=A; size_t k=std::min(A.m,A.n); DV s(k),sup(k+1); if (k==0) return s;
+    LAPACKE_dgesvd(LAPACK_COL_MAJOR,'N','N',(int)A.m,(int)A.n,c.a.data(),(int)A.m,s.data(),nullptr,1,nullptr,1,sup.data()); return s; }
+static double ratio(double a,double b) { return (b>0) ? a/b : (a==0 ? 0.0 : INFINITY); }
+static double condn(const DV& s) { return (s.empty() || !(s.back()>0)) ? INFINITY : s.front()/s.back(); }
+
+static FWire c13l(Reader& r,FReader&) {
+    ll kind=r.z(); size_t m=r.n(), n=r.n(), rk=r.n(); Lcg g((unsigned long long)r.z());
+    FWire out; out.z=Wire{ST_OK};
+    auto discard=[&]{ return FWire{Wire{5},{}}; };
+    switch (kind) {
+    case 1: {   // Matrix::inverse : A inv = inv A = I
+        DM A=randint(g,m,m); for (size_t i=0;i<m;++i) A(i,i)+=g.next(2,6);
+        DV s=svals(A); double cond=condn(s); if (!(cond<1e8)) return discard();
+        const Matrix MA=toM(A); std::vector<double> before(MA.data(),MA.data()+MA.size());
+        DM I=ofM(MA.inverse());
+        double pure = memcmp(before.data(),MA.data(),before.size()*sizeof(double))==0 ? 0.0 : INFINITY;
+        out.f={cond,nrm(sub(mul(A,I),eye(m)))/std::sqrt((double)m),nrm(sub(mul(I,A),eye(m)))/std::sqrt((double)m),pure}; return out; }
+    case 2: case 8: {   // Matrix::pinverse : the four Moore-Penrose conditions ; 8: with a relative tolerance that cuts the rank
+        DM A = (rk==std::min(m,n)) ? randint(g,m,n) : mul(randint(g,m,rk),randint(g,rk,n));
+        DV s=svals(A); size_t er=0; for (double x:s) if (x>1e-9*s.front() && x>0) ++er;
+        double cond = er ? s.front()/s[er-1] : 1.0; if (!(cond<1e8)) return discard();
+        if (er<s.size() && er>0 && s[er]>1e-13*s.front()) return discard();     // no clear numerical rank
+        double reltol=0.0; size_t keep=er;
+        if (kind==8) {      // choose tol strictly between two singular values: max(m,n)*reltol*s0 = sqrt(s[k-1]*s[k])
+            if (er<2) return discard();
+            size_t k=1+(size_t)g.next(0,(int)er-2);
+            if (s[k-1]/s[k]<1.5) return discard();
+            reltol=std::sqrt(s[k-1]*s[k])/(std::max(m,n)*s.front()); keep=k;
+        }
+        DM P=ofM(toM(A).pinverse(reltol));
+        if (P.m!=n || P.n!=m) { out.z=Wire{6}; return out; }
+        // reference: truncated SVD pseudo-inverse of rank `keep`
+        DM c=A; size_t q=std::min(m,n); DM U(m,q),Vt(q,n); DV sv(q),sup(q+1);
+        LAPACKE_dgesvd(LAPACK_COL_MAJOR,'S','S',(int)m,(int)n,c.a.data(),(int)m,sv.data(),U.a.data(),(int)m,Vt.a.data(),(int)q,sup.data());
+        DM Pk(n,m); for (size_t t=0;t<keep;++t) for (size_t i=0;i<n;++i) for (size_t j=0;j<m;++j) Pk(i,j)+=Vt(t,i)*U(j,t)/sv[t];
+        DM Ak(m,n); for (size_t t=0;t<keep;++t) for (size_t i=0;i<m;++i) for (size_t j=0;j<n;++j) Ak(i,j)+=U(i,t)*sv[t]*Vt(t,j);
+        double cnd = keep ? sv[0]/sv[keep-1] : 1.0;
+        double nA=std::max(nrm(Ak),1e-300), nP=std::max(nrm(P),1e-300);
+        DM AP=mul(Ak,P), PA=mul(P,Ak);
+        out.f={cnd, ratio(nrm(sub(mul(AP,Ak),Ak)),nA), ratio(nrm(sub(mul(PA,P),P)),nP), ratio(nrm(sub(tr(AP),AP)),nA*nP), ratio(nrm(sub(tr(PA),PA)),nA*nP),
+               ratio(nrm(sub(P,Pk)),std::max(nrm(Pk),1e-300))};
+        return out; }
+    case 3: {   // Matrix::svd : reconstruction, orthogonality, ordering (complete and economic)
+        DM A = (rk==std::min(m,n)) ? randint(g,m,n) : mul(randint(g,m,rk),randint(g,rk,n));
+        bool complete = g.next(0,1)==1; size_t q=std::min(m,n);
+        Matrix U,V; SparseMatrix S; toM(A).svd(U,S,V,complete);
+        if (U.nlin()!=m || U.ncol()!=m || V.nlin()!=n || V.ncol()!=n || S.nlin()!=m || S.ncol()!=n) { out.z=Wire{6}; return out; }
+        DM Uq(m,q),Vq(q,n),Sq(q,q); double ord=0; DV s(q);
+        for (size_t t=0;t<q;++t) { s[t]=S(t,t); Sq(t,t)=s[t]; if (!(s[t]>=0) || (t && !(s[t-1]>=s[t]))) ord=INFINITY; for (size_t i=0;i<m;++i) Uq(i,t)=U(i,t); for (size_t j=0;j<n;++j) Vq(t,j)=V(t,j); }
+        DV ref=svals(A); double ds=0; for (size_t t=0;t<q;++t) ds=std::max(ds,std::fabs(ref[t]-s[t]));
+        double nA=std::max(nrm(A),1e-300);
+        out.f={1.0, ratio(nrm(sub(mul(mul(Uq,Sq),Vq),A)),nA), nrm(sub(mul(tr(Uq),Uq),eye(q))), nrm(sub(mul(Vq,tr(Vq)),eye(q))), ord, ratio(ds,nA)};
+        if (complete) { DM Uf=ofM(U),Vf=ofM(V); out.f.push_back(nrm(sub(mul(tr(Uf),Uf),eye(m)))); out.f.push_back(nrm(sub(mul(Vf,tr(Vf)),eye(n)))); }
+        return out; }
+    case 4: case 5: case 6: case 7: {   // symmetric: solveLin (vector and matrix), inverse/invert, det, posdefinverse
+        DM X=randint(g,m,m); DM A(m,m);
+        if (kind==7) { A=mul(tr(X),X); for (size_t i=0;i<m;++i) A(i,i)+=1; }
+        else { for (size_t i=0;i<m;++i) for (size_t j=0;j<m;++j) A(i,j)=X(i,j)+X(j,i); }
+        DV s=svals(A); double cond=condn(s); if (!(cond<1e8)) return discard();
+        SymMatrix SA=toS(A); std::vector<double> before(SA.data(),SA.data()+SA.size());
+        double nA=nrm(A);
+        if (kind==4) {
+            DM B=randint(g,m,std::max<size_t>(n,1)); Vector b((unsigned)m); for (unsigned i=0;i<m;++i) b(i)=B(i,0);
+            Vector x=SA.solveLin(b); DM xv(m,1); for (unsigned i=0;i<m;++i) xv(i,0)=x(i);
+            DM b0(m,1); for (unsigned i=0;i<m;++i) b0(i,0)=B(i,0);
+            double bpure=0; for (unsigned i=0;i<m;++i) if (b(i)!=B(i,0)) bpure=INFINITY;
+            Matrix RHS=toM(B); Matrix Xm=SA.solveLin(RHS);
+            out.f={cond, ratio(nrm(sub(mul(A,xv),b0)),nA*std::max(nrm(xv),1e-300)), ratio(nrm(sub(mul(A,ofM(Xm)),B)),nA*std::max(nrm(ofM(Xm)),1e-300)), bpure};
+        } else if (kind==5) {
+            DM I=ofS(SA.inverse()); SymMatrix C(SA,DEEP_COPY); C.invert(); DM I2=ofS(C);
+            out.f={cond, nrm(sub(mul(A,I),eye(m)))/std::sqrt((double)m), nrm(sub(mul(A,I2),eye(m)))/std::sqrt((double)m)};
+        } else if (kind==6) {
+            DM c=A; std::vector<int> piv(m); LAPACKE_dgetrf(LAPACK_COL_MAJOR,(int)m,(int)m,c.a.data(),(int)m,piv.data());
+            double dref=1; for (size_t i=0;i<m;++i) { dref*=c(i,i); if (piv[i]!=(int)i+1) dref=-dref; }
+            double d=SA.det();
+            out.f={cond, ratio(std::fabs(d-dref),std::fabs(dref))};
+        } else {
+            DM I=ofS(SA.posdefinverse());
+            out.f={cond, nrm(sub(mul(A,I),eye(m)))/std::sqrt((double)m)};
+        }
+        out.f.push_back(memcmp(before.data(),SA.data(),before.size()*sizeof(double))==0 ? 0.0 : INFINITY);
+        return out; }
+    case 9: {   // nullspace_projector of a wide full-row-rank matrix: P^2=P, M P = 0, P symmetric, trace = n-m
+        if (m>=n) { size_t t=m; m=n; n=t; if (m==n) ++n; }
+        DM A=randint(g,m,n); DV s=svals(A); double cond=condn(s); if (!(cond<1e8)) return discard();
+        DM P=ofM(nullspace_projector(toM(A)));
+        if (P.m!=n || P.n!=n) { out.z=Wire{6}; return out; }
+        double trc=0; for (size_t i=0;i<n;++i) trc+=P(i,i);
+        out.f={cond, nrm(sub(mul(P,P),P)), ratio(nrm(mul(A,P)),nrm(A)), nrm(sub(tr(P),P)), std::fabs(trc-(double)(n-m))};
+        return out; }
+    }
+    out.z=Wire{-1}; return out;
+}
+
 int main(int argc,char** argv) {
     if (argc<2) return 2;
-    struct rlimit rl; rl.rlim_cur=rl.rlim_max=(rlim_t)6<<30; setrlimit(RLIMIT_AS,&rl);
+    struct rlimit rl; rl.rlim_cur=rl.rlim_max=(rlim_t)3<<30; setrlimit(RLIMIT_AS,&rl);
+    if (getenv("C13_FLOAT"))
+        return run_cases_f(argv[1],[&](const std::string& comp,Reader& r,FReader& f)->FWire { if (comp=="c13l") return c13l(r,f); return FWire{Wire{-2},{}}; });
     return run_cases(argv[1],[&](const std::string& comp,Reader& r)->Wire { if (comp=="c13") return c13(r); return Wire{-2}; });
 }
